@@ -159,6 +159,17 @@ def check_state(case, ctx):
             Ft = Ft + case['tv'][2] * np.max(np.abs(F[:3, :3])) * h * 0.2 * np.outer(gx, gy)[:, :, None, None] * Bx[None, None]
         Fuse = np.ascontiguousarray(Ft)
         Fref = Fuse
+        # the same table in another memory layout (Fortran order as from loadmat, a transposed view of (6,6,ny,nx) data, a strided view)
+        lay = case.get('table_layout', 'C')
+        if lay == 'F':
+            Fuse = np.asfortranarray(Fuse)
+        elif lay == 'T':
+            Fuse = np.ascontiguousarray(Fuse.transpose(3, 2, 1, 0)).transpose(3, 2, 1, 0)
+        elif lay == 'strided':
+            big = np.zeros((nx, 2 * ny, 6, 6))
+            big[:, ::2] = Fuse
+            Fuse = big[:, ::2]
+        ctx.label('table-layout:' + lay)
         F_before = Fuse.copy()
 
     with package(name):
@@ -218,8 +229,12 @@ def _const_strategy(draw, tier='quick'):
     case['extra'] = draw(st.sampled_from([0, 0, 2, 11]))
     case['row0'] = draw(st.integers(0, 11))
     sc = draw(gen.logfl(1e-2, 1e6))
-    kind = draw(st.sampled_from(['mixed', 'mixed', 'shear', 'x', 'y', 'tension']))
+    kind = draw(st.sampled_from(['mixed', 'mixed', 'shear', 'x', 'y', 'tension', 'cancel', 'cancel3']))
     v = [draw(gen.fl(-1., 1.)) for _ in range(3)]
+    if kind == 'cancel':          # equal and opposite normal resultants (exactly): the triple sums to zero
+        v = [v[0] or 1., -(v[0] or 1.), 0.]
+    elif kind == 'cancel3':       # three resultants that sum to zero exactly
+        v = [-3., 1., 2.] if v[0] > 0 else [0.5, 0.25, -0.75]
     if kind == 'shear':
         v = [0., 0., v[2] or 1.]
     elif kind == 'x':
@@ -257,6 +272,7 @@ def _state_strategy(draw, tier='quick'):
     case['nx'] = draw(st.one_of(st.integers(2, 12), st.sampled_from([16, 33, 64])))
     case['ny'] = draw(st.one_of(st.integers(2, 12), st.sampled_from([16, 33, 64])))
     case['table'] = draw(st.sampled_from(['none', 'uniform-table', 'varying']))
+    case['table_layout'] = draw(st.sampled_from(['C', 'C', 'F', 'T', 'strided']))
     case['tv'] = [draw(gen.fl(-1., 1.)) for _ in range(3)]
     return case
 
